@@ -1395,6 +1395,8 @@ func makeStructArshaler(t reflect.Type) *arshaler {
 					if !v.IsValid() {
 						err := newUnmarshalErrorBefore(dec, t, errNilField)
 						if !uo.Flags.Get(jsonflags.ReportErrorsWithLegacySemantics) {
+							uo.Flags = flagsOriginal // undo the field-specific `string` and `format` options
+							uo.Format = ""
 							return err
 						}
 						errUnmarshal = cmp.Or(errUnmarshal, err)
